@@ -48,6 +48,7 @@ struct CallRec {
     long buffered_before;  // bytes libhtp held for that direction before the call (C08 work measure)
     unsigned conn_flags_after; int ntx_after; int next_tx_after;
     long msg_bytes_before; // bytes of the current message already offered in that direction (amortisation window of C08's per-call bound)
+    int cbfault_hook, cbfault_ret;   // first scripted callback of this call that returned HTP_STOP / HTP_ERROR (hook id + 1; 0 = none), and what it returned
 };
 
 struct ConnRes {
